@@ -21,6 +21,8 @@ PROP = "C19"
 LEVEL = "exploration"
 
 ATOMS = ["x", "y z", "p [[ q", "p ]] q", "[[a]]", "{{PAGENAME:}}", "{{PAGENAME}}", "{{#if:|}}", "{{t|}}", "{{t||x}}", "{{lc:}}"]
+# further atoms: used bare and under one wrapper only (they do not multiply through the depth-2 products)
+EXTRA_ATOMS = ["r [1][2] s", "e [] f"]
 WRAPS = ["'''%s'''", "''%s''", "[[a|%s]]", "{{t|%s}}", "{{t|k=%s}}", "{{#if:x|%s|z}}", '<span class="c">%s</span>',
          "<b>%s</b>", "[http://x.y %s]", "{{{p|%s}}}"]
 BLOCKS = [
@@ -36,11 +38,13 @@ SELF_STANDING = set(LEVELK) | {K.LIST, K.TABLE, K.BOLD, K.ITALIC, K.LINK, K.TEMP
                                K.TEMPLATE_ARG, K.URL}
 
 
-def inlines(depth):
+def inlines(depth, top=True):
     out = list(ATOMS)
+    if top:
+        out += EXTRA_ATOMS + [w % e for w in WRAPS for e in EXTRA_ATOMS if not w.startswith(("[[a|", "[http"))]
     if depth > 0:
         for w in WRAPS:
-            for i in inlines(depth - 1):
+            for i in inlines(depth - 1, False):
                 if w.startswith("[[a|") and ("[" in i or "]" in i):
                     continue  # a link inside link text is not in the grammar
                 if w.startswith("[http") and ("[" in i or "]" in i):
